@@ -1,5 +1,6 @@
 //! Correspondence harness: decodes the same case bytes as coq/Model/Case.v,
 //! runs the real gamedig code, prints the same canonical text.
+mod alloc;
 mod canon;
 mod cases;
 mod query;
@@ -7,6 +8,9 @@ mod ser;
 mod rd;
 
 use std::io::{BufRead, Write};
+
+#[global_allocator]
+static GLOBAL: alloc::Counting = alloc::Counting;
 
 fn unhex(s: &str) -> Vec<u8> {
     let b = s.as_bytes();
